@@ -4,14 +4,14 @@
 using namespace datasketches;
 typedef compact_theta_sketch cts;
 typedef wrapped_compact_theta_sketch wcts;
-W uint16_t w_seed_hash(uint64_t seed) { return compute_seed_hash(seed); }
-W cts* w_cts_make(uint8_t is_empty, uint8_t is_ordered, uint16_t seed_hash, uint64_t theta, const uint64_t* e, uint32_t n) {
+WRAP uint16_t w_seed_hash(uint64_t seed) { return compute_seed_hash(seed); }
+WRAP cts* w_cts_make(uint8_t is_empty, uint8_t is_ordered, uint16_t seed_hash, uint64_t theta, const uint64_t* e, uint32_t n) {
   std::vector<uint64_t> v; v.reserve(n); for (uint32_t i = 0; i < n; i++) v.push_back(e[i]);
   return new cts(is_empty, is_ordered, seed_hash, theta, std::move(v));
 }
-W void w_cts_delete(cts* c) { delete c; }
+WRAP void w_cts_delete(cts* c) { delete c; }
 // serialize into out[cap]; returns the image size, or -1 on exception / overflow of cap
-W int64_t w_cts_serialize(const cts* c, uint32_t header, uint8_t compressed, uint8_t* out, uint64_t cap) {
+WRAP int64_t w_cts_serialize(const cts* c, uint32_t header, uint8_t compressed, uint8_t* out, uint64_t cap) {
   try {
     auto v = compressed ? c->serialize_compressed(header) : c->serialize(header);
     if (v.size() > cap) return -2;
@@ -19,19 +19,19 @@ W int64_t w_cts_serialize(const cts* c, uint32_t header, uint8_t compressed, uin
     return (int64_t)v.size();
   } catch (...) { return -1; }
 }
-W uint64_t w_cts_ser_size(const cts* c, uint8_t compressed) { return c->get_serialized_size_bytes(compressed); }
+WRAP uint64_t w_cts_ser_size(const cts* c, uint8_t compressed) { return c->get_serialized_size_bytes(compressed); }
 template<typename S> static void fill(const S& s, theta_view* v) {
   v->theta = s.get_theta64(); v->num = s.get_num_retained(); v->is_empty = s.is_empty(); v->is_ordered = s.is_ordered(); v->seed_hash = s.get_seed_hash();
   uint32_t n = 0; for (auto h : s) { if (n < 8) v->e[n] = h; ++n; } v->iterated = n;
 }
-W void w_cts_view(const cts* c, theta_view* v) { fill(*c, v); }
-W int w_theta_deser(const uint8_t* buf, uint64_t n, uint64_t seed, theta_view* v) { try { auto s = cts::deserialize(buf, n, seed); fill(s, v); return 0; } catch (...) { return 1; } }
-W int w_theta_wrap(const uint8_t* buf, uint64_t n, uint64_t seed, theta_view* v) { try { auto s = wcts::wrap(buf, n, seed); fill(s, v); return 0; } catch (...) { return 1; } }
+WRAP void w_cts_view(const cts* c, theta_view* v) { fill(*c, v); }
+WRAP int w_theta_deser(const uint8_t* buf, uint64_t n, uint64_t seed, theta_view* v) { try { auto s = cts::deserialize(buf, n, seed); fill(s, v); return 0; } catch (...) { return 1; } }
+WRAP int w_theta_wrap(const uint8_t* buf, uint64_t n, uint64_t seed, theta_view* v) { try { auto s = wcts::wrap(buf, n, seed); fill(s, v); return 0; } catch (...) { return 1; } }
 // deserialize then re-serialize (round trip of bytes)
-W int64_t w_theta_reser(const uint8_t* buf, uint64_t n, uint64_t seed, uint8_t compressed, uint8_t* out, uint64_t cap) {
+WRAP int64_t w_theta_reser(const uint8_t* buf, uint64_t n, uint64_t seed, uint8_t compressed, uint8_t* out, uint64_t cap) {
   try { auto s = cts::deserialize(buf, n, seed); auto v = compressed ? s.serialize_compressed() : s.serialize(); if (v.size() > cap) return -2; for (size_t i = 0; i < v.size(); i++) out[i] = v[i]; return (int64_t)v.size(); } catch (...) { return -1; }
 }
-W uint8_t w_num_entries_bytes(cts* c, uint64_t fake_count) {
+WRAP uint8_t w_num_entries_bytes(cts* c, uint64_t fake_count) {
   // size accounting kernel: entries_.size() is faked by moving the vector's end pointer (never dereferenced)
   uint64_t** raw = reinterpret_cast<uint64_t**>(&c->entries_);   // libstdc++ vector layout: {start, finish, end_of_storage}
   uint64_t* save = raw[1]; raw[1] = raw[0] + fake_count; uint8_t r = c->get_num_entries_bytes(); raw[1] = save; return r;
